@@ -129,6 +129,7 @@ def run_shard(shard, tier) -> Stats:
     try:
         if part in ("enc", "full"):
             ctrs = COUNTERS if part == "enc" else range(4096)
+            held = None
             for n in range(a, b):
                 payload = al.payload("c05", n, 4 if n % 3 else 2)
                 for c in ctrs:
@@ -139,6 +140,12 @@ def run_shard(shard, tier) -> Stats:
                                      {"part": part, "key": kidx, "len": n, "counter": c}, "a packet", str(e)[:100])
                         st.ev((part, kidx, n, c, "req"), "req-bad", True)
                         continue
+                    # a packet that was handed out (a transport may still hold the very object while it waits for the socket)
+                    # must stay what it was when the next one is encoded
+                    if held is not None and bytes(held[0]) != held[1]:
+                        st.violation("an encoded request changed when the next one was encoded",
+                                     {"part": part, "key": kidx, "len": n, "counter": c}, held[1].hex()[:80], bytes(held[0]).hex()[:80])
+                    held = (pkt, bytes(pkt))
                     _check_request(st, part, kidx, sess.sk, n, c, pkt, payload)
                     if part == "enc" or c % 64 == 0:
                         _check_response(st, part, kidx, sess, n, c, payload)
